@@ -3,19 +3,27 @@
 import glob, os, re, subprocess
 V = '/verif'
 rows, heads = [], []
-for f in sorted(glob.glob(V + '/seeded/RESULTS.*.md')):
+byid = {}
+# rows of an earlier full run are kept for the seeds that were not run again (their row says which trees they were run against)
+files = ([V + '/seeded/RESULTS.md'] if os.path.exists(V + '/seeded/RESULTS.md') else []) + sorted(glob.glob(V + '/seeded/RESULTS.*.md'))
+for f in files:
+    head = ''
     for l in open(f):
         if l.startswith('repo HEAD'):
-            heads.append(l.strip())
+            head = l.strip()
+            heads.append(head)
         elif l.startswith('| ') and not l.startswith('| seed') and not l.startswith('|---'):
-            rows.append(l.rstrip())
-rows.sort()
+            cells = [c.strip() for c in l.strip().strip('|').split('|')]
+            if len(cells) == 5:
+                cells.append(head.split(',')[0].replace('repo HEAD ', '') + ' / ' + (head.split(',')[1].replace(' verif HEAD ', '') if ',' in head else ''))
+            byid[cells[0]] = '| ' + ' | '.join(cells) + ' |'
+rows = sorted(byid.values())
 caught = sum('caught' in r for r in rows)
 obsolete = sum('obsolete' in r for r in rows)
 with open(V + '/seeded/RESULTS.md', 'w') as o:
     o.write('# Seeded changes vs. the current checks\n\n%s\n\n%d seeds, %d caught, %d obsolete, %d not caught by the quick check of the property they break\n\n'
-            % (heads[0] if heads else '', len(rows), caught, obsolete, len(rows) - caught - obsolete))
-    o.write('| seed | property | result | violation keys (first 3) | wall |\n|---|---|---|---|---|\n')
+            % ('latest run: ' + heads[-1] if heads else '', len(rows), caught, obsolete, len(rows) - caught - obsolete))
+    o.write('| seed | property | result | violation keys (first 3) | wall | run against repo / verif commit |\n|---|---|---|---|---|---|\n')
     o.write('\n'.join(rows) + '\n')
 for f in glob.glob(V + '/seeded/RESULTS.*.md'):
     os.remove(f)
